@@ -85,6 +85,23 @@ def generate():
     if "truncate(" not in stmt or "truncate(ss)" not in expr:
         raise Untranslatable("name_resolution.rs: Block / Function no longer truncate the stack")
 
+    # "is this value a function literal" (the variable of a function definition is declared before its body; `self`
+    # is visible in function fields of a blob instance): the model's PAst.is_function looks through parentheses,
+    # as fn is_function_literal does; both sites have to use it
+    if not re.search(r"\bfn\s+is_function_literal\b", nr):
+        raise Untranslatable("name_resolution.rs: fn is_function_literal is gone (does a parenthesised function "
+                             "literal count as a function again?)")
+    ifl = _fn_body(nr, "is_function_literal")
+    if not (re.search(r"ExpressionKind::Function\s*\{\s*\.\.\s*\}\s*=>\s*true", ifl)
+            and re.search(r"ExpressionKind::Parenthesis\(\s*(\w+)\s*\)\s*=>\s*is_function_literal\(\s*\1\s*\)", ifl)
+            and re.search(r"_\s*=>\s*false", ifl)):
+        raise Untranslatable("name_resolution.rs: fn is_function_literal is not understood")
+    if not re.search(r"if\s+is_function_literal\(\s*field\s*\)", expr) \
+            or not re.search(r"else\s+if\s+is_function_literal\(\s*value\s*\)", stmt) \
+            or re.search(r"matches!\(\s*(field|value)\s*\.\s*kind\s*,[^)]*Function", expr + stmt):
+        raise Untranslatable("name_resolution.rs: the function-literal tests of blob fields / definitions are not "
+                             "the calls of is_function_literal the model mirrors")
+
     # the import pass of `pub fn resolve`: once per module in tree.modules order, or first repeated with the
     # errors dropped until no name is added
     top = _fn_body(nr, "resolve")
